@@ -419,6 +419,10 @@ class BzrGitMapping(foreign.VcsMapping):
             encoding = rev.properties["git-explicit-encoding"]
         except KeyError:
             encoding = rev.properties.get("git-implicit-encoding", "utf-8")
+        if encoding == "false":
+            # "encoding false" is not a codec: import_commit fell back to
+            # utf-8 / latin1 (recorded in git-implicit-encoding)
+            encoding = rev.properties.get("git-implicit-encoding", "utf-8")
         with contextlib.suppress(KeyError):
             commit.encoding = rev.properties["git-explicit-encoding"].encode("ascii")
         commit.committer = fix_person_identifier(rev.committer.encode(encoding))
@@ -493,7 +497,9 @@ class BzrGitMapping(foreign.VcsMapping):
         except AttributeError:
             extra = commit.extra
         if "git-extra" in rev.properties:
-            for l in rev.properties["git-extra"].splitlines():
+            # every line was written with a trailing "\n"; str.splitlines()
+            # would also split on \r, \x0b, \x0c, \x1c-\x1e, U+0085, U+2028, U+2029
+            for l in rev.properties["git-extra"].split("\n")[:-1]:
                 (k, v) = l.split(" ", 1)
                 extra.append(
                     (
@@ -512,7 +518,10 @@ class BzrGitMapping(foreign.VcsMapping):
         Returns:
             The Bazaar revision ID for this commit.
         """
-        encoding = commit.encoding.decode("ascii") if commit.encoding else "utf-8"
+        if commit.encoding and commit.encoding != b"false":
+            encoding = commit.encoding.decode("ascii")
+        else:
+            encoding = "utf-8"
         if commit.message is not None:
             try:
                 _message, metadata = self._decode_commit_message(
